@@ -1122,3 +1122,243 @@ def c01_walk(vals, prog):
 def len_equal(vals, r1, r2):
     if len(vals[r1][1]) != len(vals[r2][1]): return 'selection size changed under a whole-turn shift: %d vs %d' % (len(vals[r1][1]), len(vals[r2][1]))
     return None
+
+# ------------------------------------------------------------------ C18 / C19 trait helpers
+MU0 = 4.0 * math.pi * 1e-7
+C_LIGHT = 3.0e8
+EPS0 = 1.0 / (MU0 * C_LIGHT * C_LIGHT)
+Z0 = MU0 * C_LIGHT
+K_COULOMB = 1.0 / (4.0 * math.pi * EPS0)
+
+def _f(bits): return fb.fl(bits)
+def _grade_angle_f(A):
+    """the library's own float grade_angle: (grade as f64 * PI) / 2.0 + rem"""
+    return float(A[2] % 4) * math.pi / 2.0 + _f(A[1])
+
+def _rel_close(got, want, k=64):
+    return abs(got - want) <= k * EPS * abs(want) + mp.mpf(5e-324) * 8
+
+@pred
+def constants_are(vals, rs):
+    want = [C_LIGHT, MU0, EPS0, Z0, 1e-10]
+    for r, w in zip(rs, want):
+        if vals[r] != ('F', fb.bits(w)): return 'constant %r, expected %r' % (vals[r], w)
+    return None
+
+@pred
+def area_ref(vals, rarea, rw1, rw2):
+    want = _f(vals[rw1][1]) / 2.0 + _f(vals[rw2][1]) / 2.0
+    if vals[rarea] != ('F', fb.bits(want)): return 'area %r, expected |e1^e2|/2 + |e3^e4|/2 = %r' % (vals[rarea], want)
+    return None
+
+@pred
+def poynting_ref(vals, rres, rw):
+    r, w = vals[rres], vals[rw]
+    if r[1] != fb.bits(_f(w[1]) / MU0) or (r[2], r[3]) != (w[2], w[3]):
+        return 'poynting %r, expected the wedge %r with magnitude / mu0' % (r, w)
+    return None
+
+@pred
+def mag_is_quotient(vals, rres, rnum, rden, blade):
+    r = vals[rres]
+    want = _f(vals[rnum][1]) / _f(vals[rden][1])
+    if r[1] != fb.bits(want): return 'magnitude %r, expected %r' % (_f(r[1]), want)
+    if r[3] != blade or v(r[2]) != 0: return 'angle %r, expected blade %d remainder 0' % (_A(r), blade)
+    return None
+
+@pred
+def mag_is_one(vals, r):
+    if vals[r][1] != fb.bits(1.0): return 'magnitude %r, expected exactly 1' % _f(vals[r][1])
+    return None
+
+@pred
+def forward_ref(vals, rx, rw, rb, rres, rang):
+    x, w, b, r = vals[rx], vals[rw], vals[rb], vals[rres]
+    want = _f(x[1]) * _f(w[1]) + _f(b[1])
+    if r[1] != fb.bits(want): return 'forward pass magnitude %r, expected |x||w| + |b| = %r' % (_f(r[1]), want)
+    if (r[2], r[3]) != (vals[rang][1], vals[rang][2]): return 'forward pass angle %r, expected the summed angle %r' % (_A(r), vals[rang])
+    return None
+
+@pred
+def activate_ref(vals, rg, kind, rres):
+    g, r = vals[rg], vals[rres]
+    if (r[2], r[3]) != (g[2], g[3]): return 'activation changed the angle: %r -> %r' % (_A(g), _A(r))
+    c = mp.cos(direction(_A(g))); m = v(g[1]); got = v(r[1])
+    if not fb.is_finite_bits(r[1]): return 'activation magnitude not finite'
+    if kind == 0:
+        if c > mp.mpf('1e-12') and r[1] != g[1]: return 'ReLU with cos t = %s > 0 did not pass the magnitude' % mp.nstr(c, 5)
+        if c < -mp.mpf('1e-12') and got != 0: return 'ReLU with cos t = %s <= 0 returned %s' % (mp.nstr(c, 5), mp.nstr(got, 5))
+        if got != 0 and r[1] != g[1]: return 'ReLU returned neither the magnitude nor zero'
+    elif kind == 1:
+        want = m / (1 + mp.exp(-c))
+        if not _rel_close(got, want): return 'sigmoid magnitude %s, expected %s' % (mp.nstr(got, 17), mp.nstr(want, 17))
+        if m > 0 and not (0 < got < m): return 'sigmoid output %s not strictly between 0 and the magnitude %s' % (mp.nstr(got, 17), mp.nstr(m, 17))
+    elif kind == 2:
+        want = m * mp.tanh(c)
+        if abs(got - want) > 64 * EPS * m + mp.mpf(5e-324) * 8: return 'tanh magnitude %s, expected %s' % (mp.nstr(got, 17), mp.nstr(want, 17))
+        if abs(got) > m: return '|tanh output| exceeds the magnitude'
+    else:
+        if r != g: return 'identity activation changed the value'
+    return None
+
+@pred
+def inverse_field_ref(vals, rch, rdist, rpow, rang, rk, rres):
+    ch, d, p, A, k, r = vals[rch], vals[rdist], vals[rpow], _A(vals[rang]), vals[rk], vals[rres]
+    if _isP(r): return 'unexpected panic'
+    want = v(k[1]) * v(ch[1]) / mp.power(v(d[1]), v(p[1]))
+    if not (mp.mpf('1e-300') < want < mp.mpf('1e300')): return None
+    if not fb.is_finite_bits(r[1]) or not _rel_close(v(r[1]), want, 256): return 'field magnitude %s, expected k q / r^n = %s' % (mp.nstr(v(r[1]), 17), mp.nstr(want, 17))
+    c = mp.cos(direction(_A(ch)))
+    R = _A(r)
+    same = (R[1], R[2]) == (A[1], A[2])
+    turned = R[2] == A[2] + 2 and v(R[1]) == v(A[1])
+    if not (same or turned): return 'field direction %r is neither the given angle %r nor that angle plus pi' % (R, A)
+    if abs(c) > mp.mpf('1e-12') and ((c > 0) != same): return 'charge sign (cos = %s) and half turn disagree' % mp.nstr(c, 5)
+    return None
+
+@pred
+def wire_ref(vals, rr, rcur, rperm, rA, rB):
+    rr_, cur, perm, A, B = vals[rr], vals[rcur], vals[rperm], vals[rA], vals[rB]
+    wantA = _f(perm[1]) * _f(cur[1]) * math.log(_f(rr_[1])) / (2.0 * math.pi)
+    wantB = _f(perm[1]) * _f(cur[1]) / (2.0 * math.pi * _f(rr_[1]))
+    if abs(v(A[1]) - mp.mpf(wantA)) > 8 * EPS * abs(mp.mpf(wantA)) + mp.mpf(5e-324) * 8: return 'wire vector potential %r, expected %r' % (_f(A[1]), wantA)
+    if A[3] != 1 or v(A[2]) != 0: return 'wire vector potential not at pi/2'
+    if B[1] != fb.bits(wantB): return 'wire magnetic field %r, expected mu I / (2 pi r) = %r' % (_f(B[1]), wantB)
+    if B[3] != 0 or v(B[2]) != 0: return 'wire magnetic field not at angle 0'
+    return None
+
+@pred
+def spherical_ref(vals, rr, rt, rk, rs, rres):
+    r_, t, k, s, res = [vals[x] for x in (rr, rt, rk, rs, rres)]
+    omega = _f(k[1]) * _f(s[1])
+    arg = _f(k[1]) * _f(r_[1]) - omega * _f(t[1])
+    want = mp.cos(mp.mpf(arg)) / v(r_[1])
+    if v(res[2]) != 0 or res[3] not in (0, 2): return 'spherical wave potential not encoded at 0 or pi'
+    if abs(_sv(res) - want) > 16 * EPS / v(r_[1]) + 16 * EPS * abs(want): return 'spherical wave potential %s, expected %s' % (mp.nstr(_sv(res), 17), mp.nstr(want, 17))
+    return None
+
+def _radians_dir(x):
+    d = mp.fmod(x, 2 * PI)
+    if d < 0: d += 2 * PI
+    return d
+
+@pred
+def refract_ref(vals, rg, rn, rres):
+    g, n, r = vals[rg], vals[rn], vals[rres]
+    if r[1] != g[1]: return 'refraction changed the magnitude'
+    s = mp.sin(direction(_A(g)))
+    ratio = s / v(n[1])
+    if abs(ratio) > 1 - mp.mpf('1e-9'): return None
+    m = canon_msg(_A(r))
+    if m: return m
+    want = mp.asin(ratio)
+    tol = 2 * TOL + 64 * EPS / mp.sqrt(1 - ratio * ratio)
+    if angdiff(direction(_A(r)), _radians_dir(want)) > tol: return 'refracted angle %s, expected asin(sin t / n) = %s' % (mp.nstr(direction(_A(r)), 15), mp.nstr(_radians_dir(want), 15))
+    if abs(v(n[1]) * mp.sin(direction(_A(r))) - s) > (2 * TOL + 64 * EPS) * max(v(n[1]), 1) * (1 + 1 / mp.sqrt(1 - ratio * ratio)):
+        return 'Snell: n sin(t_out) = %s, sin(t_in) = %s' % (mp.nstr(v(n[1]) * mp.sin(direction(_A(r))), 15), mp.nstr(s, 15))
+    return None
+
+@pred
+def aberrate_ref(vals, rg, rz, rres):
+    g, r = vals[rg], vals[rres]
+    if r[1] != g[1]: return 'aberration changed the magnitude'
+    m = canon_msg(_A(r))
+    if m: return m
+    tot = direction(_A(g))
+    big = mp.mpf(0)
+    for z in rz:
+        Z = vals[z]
+        e = v(Z[1]) * mp.cos(mp.sin(direction(_A(Z))) * 3)
+        tot += e; big += abs(e)
+    tol = (len(rz) + 1) * 2 * TOL + 64 * EPS * (1 + big)
+    if angdiff(direction(_A(r)), _radians_dir(tot)) > tol: return 'aberrated phase %s, expected %s' % (mp.nstr(direction(_A(r)), 15), mp.nstr(_radians_dir(tot), 15))
+    return None
+
+@pred
+def otf_ref(vals, rg, rf, rw, rres):
+    g, f, w, r = vals[rg], vals[rf], vals[rw], vals[rres]
+    want = _f(g[1]) / (_f(w[1]) * _f(f[1]))
+    if r[1] != fb.bits(want): return 'otf magnitude %r, expected %r' % (_f(r[1]), want)
+    if r[3] != g[3] + 1 or v(r[2]) != v(g[2]): return 'otf phase %r, expected one more blade than %r' % (_A(r), _A(g))
+    return None
+
+@pred
+def abcd_ref(vals, rg, ra, rb, rc, rd, rres):
+    g, a, b, c, d, r = [vals[x] for x in (rg, ra, rb, rc, rd, rres)]
+    th = _grade_angle_f(_A(g)); h = _f(g[1])
+    want_h = _f(a[1]) * h + _f(b[1]) * th
+    want_t = _f(c[1]) * h + _f(d[1]) * th
+    if r[1] != fb.bits(want_h): return 'ABCD height %r, expected A h + B theta = %r' % (_f(r[1]), want_h)
+    m = canon_msg(_A(r))
+    if m: return m
+    if angdiff(direction(_A(r)), _radians_dir(mp.mpf(want_t))) > 2 * TOL + 64 * EPS * (1 + abs(mp.mpf(want_t))): return 'ABCD angle %s, expected C h + D theta = %r' % (mp.nstr(direction(_A(r)), 15), want_t)
+    return None
+
+@pred
+def magnify_ref(vals, rg, rm, rres):
+    g, mg, r = vals[rg], vals[rm], vals[rres]
+    m = _f(mg[1])
+    want = _f(g[1]) * (1.0 / (m * m))
+    if r[1] != fb.bits(want): return 'magnified intensity %r, expected |g| / m^2 = %r' % (_f(r[1]), want)
+    mm = canon_msg(_A(r))
+    if mm: return mm
+    want_a = -mp.sin(direction(_A(g))) / v(mg[1])
+    if angdiff(direction(_A(r)), _radians_dir(want_a)) > 2 * TOL + 64 * EPS * (1 + abs(want_a)): return 'image angle %s, expected -sin t / m = %s' % (mp.nstr(direction(_A(r)), 15), mp.nstr(_radians_dir(want_a), 15))
+    return None
+
+@pred
+def regression_ref(vals, cbits, vbits, rres):
+    r = vals[rres]
+    c, vv = _f(cbits), _f(vbits)
+    want = math.sqrt(c * c / vv)
+    if r[1] != fb.bits(want): return 'regression magnitude %r, expected sqrt(cov^2/var) = %r' % (_f(r[1]), want)
+    m = canon_msg(_A(r))
+    if m: return m
+    wa = mp.atan2(mp.mpf(c), mp.mpf(vv))
+    if angdiff(direction(_A(r)), _radians_dir(wa)) > 2 * TOL + 64 * EPS: return 'regression angle %s, expected atan2(cov, var) = %s' % (mp.nstr(direction(_A(r)), 15), mp.nstr(_radians_dir(wa), 15))
+    return None
+
+@pred
+def perceptron_ref(vals, rg, lrbits, ebits, rin, rres):
+    g, inp, r = vals[rg], vals[rin], vals[rres]
+    lr, e = _f(lrbits), _f(ebits)
+    want = _f(g[1]) + lr * e * _f(inp[1])
+    if r[1] != fb.bits(want): return 'perceptron magnitude %r, expected %r' % (_f(r[1]), want)
+    m = canon_msg(_A(r))
+    if m: return m
+    sign = -1.0 if inp[3] % 4 > 2 else 1.0
+    upd = mp.mpf(-lr * e * sign)
+    if angdiff(direction(_A(r)), _radians_dir(direction(_A(g)) + upd)) > 3 * TOL + 64 * EPS * (1 + abs(upd)): return 'perceptron angle %s, expected %s' % (mp.nstr(direction(_A(r)), 15), mp.nstr(_radians_dir(direction(_A(g)) + upd), 15))
+    return None
+
+@pred
+def ratio_is(vals, r1, r2, want_s, k):
+    """|r1| / |r2| equals the reference ratio within k * 1e-13 relative"""
+    a, b = v(vals[r1][1]), v(vals[r2][1])
+    want = mp.mpf(want_s)
+    if b == 0: return None
+    if abs(a / b - want) > k * mp.mpf('1e-13') * want: return 'ratio %s, expected %s' % (mp.nstr(a / b, 17), mp.nstr(want, 17))
+    return None
+
+@pred
+def float_close_rel(vals, r1, r2, rscale, k):
+    """two float measurements agree within k*sqrt(eps)*scale^2 (areas), scale = sum of the listed magnitudes"""
+    a, b = vals[r1], vals[r2]
+    if not (fb.is_finite_bits(a[1]) and fb.is_finite_bits(b[1])): return 'non-finite area'
+    scale = sum((v(vals[r][1]) for r in rscale), mp.mpf(0))
+    bl = max([vals[r][3] for r in rscale] + [1])
+    if abs(v(a[1]) - v(b[1])) > (k * SQEPS + 8 * TOL + 8 * _blade_term(bl)) * scale * scale: return 'areas differ: %s vs %s' % (mp.nstr(v(a[1]), 17), mp.nstr(v(b[1]), 17))
+    return None
+
+@pred
+def shoelace(vals, rarea, rps):
+    pts = [cart(vals[r]) for r in rps]
+    s = mp.mpf(0)
+    for i in range(4):
+        x1, y1 = pts[i]; x2, y2 = pts[(i + 1) % 4]
+        s += x1 * y2 - x2 * y1
+    want = abs(s) / 2
+    scale = sum((v(vals[r][1]) for r in rps), mp.mpf(0))
+    got = v(vals[rarea][1])
+    if abs(got - want) > (16 * SQEPS + 8 * TOL) * scale * scale: return 'quadrilateral area %s, shoelace area %s' % (mp.nstr(got, 17), mp.nstr(want, 17))
+    return None
